@@ -84,10 +84,22 @@ func (s *dispatchState) YieldToScheduled() {
 	s.v.Store(dispatchScheduled)
 }
 
-// reset forces the state back to Idle. Called by the worker turn loop
-// when it observes a drained mailbox (paired with TrySchedule for the
-// race-safe reclaim) and by the actor restart path after the caller
-// has confirmed no worker holds the actor.
+// reset forces the state back to Idle. Called only by the worker that
+// owns the actor (state Processing): the turn loop calls it when it
+// observes a drained mailbox (paired with TrySchedule for the race-safe
+// reclaim).
 func (s *dispatchState) reset() {
 	s.v.Store(dispatchIdle)
+}
+
+// releaseStale performs the Scheduled -> Idle transition and nothing
+// else. The restart path uses it to drop a stale ready-queue claim left
+// over from before the restart. It never touches Processing: a restarted
+// actor handles messages again before its descendants finish restarting,
+// so a worker may be in the middle of a handler here, and forcing Idle
+// under it would let a second worker take the actor and run the handler
+// concurrently. A worker that later pops the stale queue entry fails its
+// Scheduled -> Processing CAS and skips the actor.
+func (s *dispatchState) releaseStale() {
+	s.v.CompareAndSwap(dispatchScheduled, dispatchIdle)
 }
